@@ -731,14 +731,16 @@ func lexBlankNode(l *lexer) stateFn {
 
 // lexPredicateOrLiteral tries to lex a predicate or a literal out of the input.
 func lexPredicateOrLiteral(l *lexer) stateFn {
-	text := l.input[l.pos:]
+	// Look for the closing delimiter after the opening quote, ignoring letter
+	// case exactly as lexLiteral does when it consumes the type marker.
+	text := strings.ToLower(l.input[l.pos+1:])
 	// Fix issue 39 (https://github.com/google/badwolf/issues/39)
 	pIdx, lIdx := strings.Index(text, "\"@["), strings.Index(text, "\"^^type:")
 	if pIdx < 0 && lIdx < 0 {
 		l.emitError("failed to parse predicate or literal for opening \" delimiter")
 		return nil
 	}
-	if pIdx > 0 && (lIdx < 0 || pIdx < lIdx) {
+	if pIdx >= 0 && (lIdx < 0 || pIdx < lIdx) {
 		return lexPredicate
 	}
 	return lexLiteral
